@@ -180,7 +180,60 @@ pub fn print_result(r: &CfgResult) {
     }
 }
 
+// ---- attribution of fatal signals (a mutated subject may read or free wild memory)
+static CTX_BUF: [std::sync::atomic::AtomicU8; 600] = [const { std::sync::atomic::AtomicU8::new(0) }; 600];
+static CTX_LEN: std::sync::atomic::AtomicUsize = std::sync::atomic::AtomicUsize::new(0);
+
+fn set_context(s: &str) {
+    use std::sync::atomic::Ordering::Relaxed;
+    let b = s.as_bytes();
+    let n = b.len().min(600);
+    for (i, x) in b.iter().take(n).enumerate() {
+        CTX_BUF[i].store(*x, Relaxed);
+    }
+    CTX_LEN.store(n, Relaxed);
+    sh::set_abort_context(s.to_string());
+}
+
+extern "C" fn on_fatal_signal(sig: libc::c_int) {
+    use std::sync::atomic::Ordering::Relaxed;
+    // async-signal-safe: write(2) + _exit only
+    let mut buf = [0u8; 700];
+    let mut n = 0;
+    for &b in b"\nE1-ABORT-MARK " {
+        buf[n] = b;
+        n += 1;
+    }
+    let l = CTX_LEN.load(Relaxed).min(600);
+    for i in 0..l {
+        buf[n] = CTX_BUF[i].load(Relaxed);
+        n += 1;
+    }
+    for &b in b"\tpanic=fatal signal " {
+        buf[n] = b;
+        n += 1;
+    }
+    buf[n] = b'0' + (sig / 10) as u8;
+    buf[n + 1] = b'0' + (sig % 10) as u8;
+    buf[n + 2] = b'\n';
+    n += 3;
+    unsafe {
+        libc::write(2, buf.as_ptr() as *const libc::c_void, n);
+        libc::_exit(70);
+    }
+}
+
+fn install_signal_handlers() {
+    unsafe {
+        for s in [libc::SIGSEGV, libc::SIGBUS, libc::SIGILL, libc::SIGFPE, libc::SIGABRT] {
+            libc::signal(s, on_fatal_signal as *const () as usize);
+        }
+    }
+}
+
 pub fn main(args: &[String]) -> i32 {
+    sh::warmup();
+    install_signal_handlers();
     match args.first().map(|s| s.as_str()) {
         Some("one") => match parse_cfg(&args[1..]) {
             Ok((cfg, o)) => {
@@ -271,7 +324,7 @@ fn prop_cmd(args: &[String]) -> i32 {
         if skip_idx.contains(&i) {
             continue;
         }
-        sh::set_abort_context(format!("idx={i}\tcli={}{}", cfg.cli(), o.cli()));
+        set_context(&format!("idx={i}\tcli={}{}", cfg.cli(), o.cli()));
         let mut o = o.clone();
         if let Some(m) = max_secs {
             o.max_secs = m;
